@@ -247,10 +247,16 @@ def release_per_entry(ctx, rule='C10.release-per-entry'):
         t = fn.term(bb)
         good = False
         why = ''
-        if how in ('remove', 'remove_entry') and len(t['args']) > 1:
-            kl = op_local(t['args'][1])
+        if how in ('first_entry', 'last_entry') and any(h2 in ('remove', 'remove_entry') for (_b2, h2) in sites):
+            # taking the entry removes nothing yet: the removal (`entry.remove()`) is judged where it happens
+            res.append(ok(rule, 'entry taken at %s; its removal is judged at the `remove`' % fn.loc(bb), sites=1))
+            continue
+        if how in ('remove', 'remove_entry') and len(t['args']) >= 1:
+            # `map.remove(&key)`: the key operand; `entry.remove()`: the entry itself (its key is read through `entry.key()`)
+            kop = t['args'][1] if len(t['args']) > 1 else t['args'][0]
+            kl = op_local(kop)
             kroot = du.root_of(kl) if kl is not None else None
-            klocs, _ = du.slice_operand(t['args'][1])
+            klocs, _ = du.slice_operand(kop)
             for (a, sx) in fn.control_deps_transitive(bb):
                 at = fn.term(a)
                 if at['k'] != 'switch':
